@@ -67,7 +67,8 @@ pub fn run() {
         let pat = a.get("faults").cloned().unwrap_or_default();
         let level = a.get("level").cloned().unwrap_or_else(|| "platform".into());
         let out = match level.as_str() {
-            "platform" => platform_case(id, len, nsend, nrecv, nshm, &pat, a.get("rintr").map(|s| s.parse().unwrap()).unwrap_or(0)),
+            "platform" => platform_case(id, len, nsend, nrecv, nshm, &pat, a.get("rintr").map(|s| s.parse().unwrap()).unwrap_or(0),
+                                        a.get("late").map(|s| s == "1").unwrap_or(false)),
             "bytes" => bytes_case(id, len, &pat),
             "typed" => typed_case(id, len, nsend, nrecv, nshm, &pat, a.get("prefail").map(|s| s == "1").unwrap_or(false),
                                   a.get("samereg").map(|s| s == "1").unwrap_or(false)),
@@ -80,7 +81,7 @@ pub fn run() {
     }
 }
 
-fn platform_case(id: u64, len: usize, nsend: usize, nrecv: usize, nshm: usize, pat: &str, rintr: i64) -> serde_json::Value {
+fn platform_case(id: u64, len: usize, nsend: usize, nrecv: usize, nshm: usize, pat: &str, rintr: i64, late: bool) -> serde_json::Value {
     let fds_before = open_fds().len();
     let data = payload(id, len);
     let (tx, rx) = platform::channel().unwrap();
@@ -102,9 +103,15 @@ fn platform_case(id: u64, len: usize, nsend: usize, nrecv: usize, nshm: usize, p
     for i in 0..nshm {
         regions.push(OsIpcSharedMemory::from_bytes(&region_bytes(id, i)));
     }
-    // receiver thread: takes the first message that arrives
+    // receiver thread: takes the first message that arrives.  late = it only starts to receive once the send has returned (the
+    // whole message is then sitting in the socket buffers, sized by whatever the sender believed at the time)
     let (rtx, rrx) = crossbeam_channel::bounded(1);
+    let (go_tx, go_rx) = crossbeam_channel::bounded::<()>(1);
+    if !late {
+        let _ = go_tx.send(());
+    }
     let h = std::thread::spawn(move || {
+        let _ = go_rx.recv();
         mark(&format!("recv {}", id));
         // rintr = k: the receiver's k-th read of a follow-up fragment is interrupted by a signal (EINTR)
         recv_eintr(rintr);
@@ -119,6 +126,9 @@ fn platform_case(id: u64, len: usize, nsend: usize, nrecv: usize, nshm: usize, p
     let res = tx.send(&data, channels, regions);
     faults("");
     mark(&format!("endsend {}", id));
+    if late {
+        let _ = go_tx.send(());
+    }
     let send_res = match res {
         Ok(()) => "Ok".to_string(),
         Err(e) => format!("Err({})", errno_of_io(&std::io::Error::from(e))),
